@@ -1,4 +1,4 @@
-CONSTANTS MaxCnt = 3 Faults = {"none", "close", "garbage"}
+CONSTANTS MaxCnt = 3 Faults = {"none", "close", "closeafter", "garbage"}
 SPECIFICATION Spec
 INVARIANT AmfNeverRejects
 INVARIANT CountFresh
